@@ -237,10 +237,16 @@ class FileInfo:
 
         if self.arch_len:
             self.arch_index = arch_index
-            arch_file = get_arch_filename(prefix, arch_index)
-            with open(os.path.join(self.vpk.folder, arch_file), 'ab') as file:
-                self.offset = file.seek(0, os.SEEK_END)
-                file.write(arch_data)
+            if arch_index is None:
+                # Stored in the _dir file after the tree. That is rewritten by write_dirfile(),
+                # and offsets are relative to the end of the tree.
+                self.offset = len(self.vpk.footer_data)
+                self.vpk.footer_data += arch_data
+            else:
+                arch_file = get_arch_filename(prefix, arch_index)
+                with open(os.path.join(self.vpk.folder, arch_file), 'ab') as file:
+                    self.offset = file.seek(0, os.SEEK_END)
+                    file.write(arch_data)
         else:
             # Only stored in the main index
             self.arch_index = None
